@@ -465,6 +465,15 @@ def gen_netscript(rng, nn, length, w):
             ops.append(("DS", a, rng.random() < 0.5))
             i += 1
             continue
+        if rng.random() < w.get("quickclose", 0.0):
+            # a connection ended by its dialer the moment the dial returns (disconnect, or the dialer restarts): the other
+            # side may still be registering it
+            a, b = pair()
+            ops.append(("D", a, b, b, "now"))
+            ops.append(("X", a, b) if rng.random() < 0.7 else ("R", a))
+            ops.append(("Q",))
+            i += 2
+            continue
         if rng.random() < w.get("inflight", 0.0):
             # a long-polling call: a's request stays inside b's handler far longer than the script lasts, so whatever
             # ends the connection later finds work in flight on it (no effect on the connection views: NetModel no-op)
@@ -539,7 +548,8 @@ def net_scenario(rng, nodes, ops, default_idle=False):
         if k == "D":
             pos_res = len(cmds)
             cmds.append("connect %d %d%s" % (op[1], op[2], " pin=%d" % op[3] if len(op) > 3 else ""))
-            cmds.append("sleep 300")
+            if len(op) <= 4:
+                cmds.append("sleep 300")       # ("D", a, b, pin, "now"): the next operation follows at once
         elif k == "DS":
             pos_res = len(cmds)
             cmds.append("connect %d %d%s" % (op[1], op[1], " pin=%d" % op[1] if op[2] else ""))
@@ -589,7 +599,7 @@ def model_case(nodes, ops):
         if op[0] == "DS":
             toks.append("K %d %d none" % (op[1], op[1]))     # not modelled: a no-op keeps the op lists aligned
             continue
-        toks.append(" ".join(str(x) for x in op))
+        toks.append(" ".join(str(x) for x in op[:4]))
     return "netmodel %s | %s" % (spec, " / ".join(toks))
 
 
@@ -807,6 +817,12 @@ ADV_VARIANTS = [
     # the victim's public key, wrapped like a SubjectPublicKeyInfo, planted inside the adversary's own valid certificate
     ("decoy-key-of-V-in-serial", "k=7 names=nN decoy=V", "self"),
     ("decoy-key-of-V-in-extension", "k=7 names=nN decoyext=V", "self"),
+    # the adversary ground its own key until its public key agrees with V's in a weak digest (xor / sum of all bytes, first /
+    # last byte): cheap to do (about 256 tries), worthless against a comparison of whole identities
+    ("ground-key-same-xor-as-V", "k=gxor:V names=nN", "self"),
+    ("ground-key-same-sum-as-V", "k=gsum:V names=nN", "self"),
+    ("ground-key-same-first-byte-as-V", "k=gfirst:V names=nN", "self"),
+    ("ground-key-same-last-byte-as-V", "k=glast:V names=nN", "self"),
 ]
 
 
@@ -831,7 +847,7 @@ def adversary_scenarios(chk, n, tag):
         label, spec, mode = ADV_VARIANTS[i % len(ADV_VARIANTS)]
         V = rng.randrange(100, 10**6)
         name = rng.choice([10, 20])
-        spec = spec.replace("k=V", "k=%d" % V).replace("chain=V", "chain=%d" % V).replace("decoy=V", "decoy=%d" % V).replace("decoyext=V", "decoyext=%d" % V).replace("nN", "n%d" % name).replace("nX", "n%d" % (30 if name != 30 else 10))
+        spec = spec.replace("k=V", "k=%d" % V).replace("chain=V", "chain=%d" % V).replace("decoy=V", "decoy=%d" % V).replace("decoyext=V", "decoyext=%d" % V).replace(":V ", ":%d " % V).replace("nN", "n%d" % name).replace("nX", "n%d" % (30 if name != 30 else 10))
         cmds = ["seed=%d delay=%d" % (rng.randrange(1 << 30), rng.choice([500, 2000])),
                 "node 1 key=%d name=n%d" % (V, name), "node 2 key=%d name=n%d" % (V + 1, name),
                 "adv 8 " + spec,
@@ -916,6 +932,9 @@ def adversary_c14(chk):
     combos = [(p, a, sni, cn) for p in (10, 20) for a in (None, 20, 30) for sni in (10, 20, 30) for cn in (10, 20, 30) if a != p]
     if quick:
         combos = chk.rng.sample(combos, 18)
+    # names in a prefix relation ("n1" / "n10" / "n100"): the dialer claims the listener's name and holds a certificate for
+    # a name that is a proper prefix or extension of it; in every run
+    combos += [(10, None, 10, 1), (10, None, 10, 100), (1, None, 1, 10), (100, None, 100, 10), (100, None, 100, 1), (1, None, 1, 100), (20, 10, 10, 1), (20, 100, 100, 10)]
     for (p, a, sni, cn) in combos:
         cmds = ["seed=%d" % chk.rng.randrange(1 << 30),
                 "node 1 key=11 name=n%d%s" % (p, " alt=n%d" % a if a else "")]
@@ -1086,7 +1105,7 @@ def rpc_trace_compare(chk, sc, case, obs, m):
 
 def c02(chk):
     quick = chk.tier == "quick"
-    scen, metas = [], []
+    scen, metas, allroutes = [], [], []
     n = 24 if quick else 300
     for i in range(n):
         rng = chk.rng
@@ -1111,6 +1130,7 @@ def c02(chk):
                 "node 0 idle=60000 keepalive=5000" + mf(0), "node 1 idle=60000 keepalive=5000" + mf(1), "connect 0 1", "sleep 500"]
         k = rng.choice([1, 4, 16, 64]) if quick else rng.choice([1, 8, 32, 64, 128])
         rpcs = []
+        routes = {}
         big = 0
         for j in range(k):
             a = rng.choice([0, 1])
@@ -1132,6 +1152,11 @@ def c02(chk):
                 args += " sleep-ms=%d" % rng.choice([1, 5, 20, 100, 400])
             if rng.random() < 0.2:
                 args += " hdr-size=%d" % rng.choice([1, 100, 5000])
+            route = "/echo"
+            if rng.random() < 0.3:
+                # routes of every shape (these nodes serve one service for all routes): the handler must see the very string sent
+                route = rng.choice(["", "/", "echo", "//", "/a//b", "a//b//", "/echo/", "//echo", "/a/b/c", "/\u00e9", "\u00e9/x", "/a b", " /a", "/A/B", "/a/./b", "/a/../b", "/%2F", "/" + "r" * rng.randrange(1, 300)])
+                args += " route=%s" % (route.encode().hex() or "-")
             st = 200
             if rng.random() < 0.3:
                 # the handler answers with a status of its own choosing (with its usual, usually non-empty, body)
@@ -1144,11 +1169,13 @@ def c02(chk):
                 args += " xh=" + ",".join("%s:%s" % (n.encode().hex(), ("v%d" % q).encode().hex()) for q, n in enumerate(names))
             cmds.append("bg %s rpc %d %d %s" % (rid, a, b, args))
             rpcs.append((rid, a, b, size, rs, st))
+            routes[rid] = route
         for rid, *_ in rpcs:
             cmds.append("join %s 300000" % rid)
         cmds += ["log 0", "log 1", "peers 0", "trace"]
         scen.append("simnet " + " ; ".join(cmds))
         metas.append((rpcs, faults, lims))
+        allroutes.append(routes)
     outs, parsed = run_scenarios(chk, scen, "fabric:rpc")
     # trace acceptance: the per-RPC events both ends recorded are replayed on Rpc.v (RpcTrace.erun); runs under
     # datagram loss are left out (a connection may be lost there, which the stream-level model does not contain)
@@ -1176,7 +1203,7 @@ def c02(chk):
         chk.evaluations += 1
         chk.count("rpc-trace-events", len(case.split("|")[2].split()))
         rpc_trace_compare(chk, scen[k], case, obs, m)
-    for sc, o, res, (rpcs, faults, lims) in zip(scen, outs, parsed, metas):
+    for sc, o, res, (rpcs, faults, lims), routes in zip(scen, outs, parsed, metas, allroutes):
         if res is None:
             continue
         chk.nontriv(sc)
@@ -1219,6 +1246,11 @@ def c02(chk):
                 a, want = sent_to[node][rid]
                 if f["from"] != str(a) or f["body"] != want:
                     chk.monitor_fail("node %d handled request %s with wrong sender/body: %s" % (node, rid, e[:150]), dict(case=sc))
+                seen_route = bytes.fromhex(f["route"].replace("-", "")).decode()
+                if seen_route != routes[rid]:
+                    chk.monitor_fail("node %d handled request %s under route %r, the caller sent %r" % (node, rid, seen_route[:80], routes[rid][:80]), dict(case=sc))
+                if routes[rid] != "/echo":
+                    chk.count("odd-routes")
             dup = [k for k, v in seen.items() if v > 1]
             if dup:
                 chk.monitor_fail("request(s) %s delivered to a handler more than once" % dup[:3], dict(case=sc))
